@@ -714,6 +714,9 @@ def check_c14(res, tier, replay):
             for _ in range(2 if tier == 'quick' else 10):
                 o, regime = gen_ohlcv(rng, rng.randrange(12, 80))
                 cases.append((wname, [], [], o, regime))
+        for _ in range(2 if tier == 'quick' else 10):       # the bundled compound strategy (default periods: warm-up 33)
+            o, regime = gen_ohlcv(rng, rng.randrange(45, 110))
+            cases.append(('MacdRsi', [], [], o, regime))
     # every 4th case carries one snapshot whose Date is the zero time (e.g. an unparsed CSV date): still one row per snapshot
     zero_at = {}
     if not replay:
